@@ -360,3 +360,15 @@ func verifCanary(label string, cond bool) {}
 //@   after "ua.NewExtensionObject(nil)" assigns nothing
 //@   after "sc.SendResponseWithContext(ctx,reqID,resp)" assigns nothing
 //@   after "h(sc,req,reqID)" assigns allbut Server serverConfig
+
+// Publish runs on the server's single dispatcher goroutine: it must hand the request over without
+// waiting for the subscription goroutine (a full queue drops the request) -- `nonblocking`: a plain
+// channel send here is a failed obligation -- and never panics, with or without a session.
+//@ func (*SubscriptionService).Publish
+//@   props C29
+//@   nonblocking
+//@   requires s != nil && s.srv != nil && s.srv.cfg != nil
+//@   requires [arg] typeis(r, *ua.PublishRequest) ==> dyn(r, *ua.PublishRequest) != nil && dyn(r, *ua.PublishRequest).RequestHeader != nil
+//@   assigns *
+//@   after "ua.NewExtensionObject(nil)" assigns nothing
+//@   ensures [C29:typed] err == nil && result0 != nil ==> typeis(result0, *ua.PublishResponse)
